@@ -64,7 +64,8 @@ def search(pid, seed, tier='quick'):
 BOUNDED = {
     'C05': dict(what='the REAL OrderBook / OrderBookSide against a BTreeMap model after every event of crafted and seeded random snapshot / update sequences: levels equal the map, '
                      'best-first, no duplicate prices, mid / volume-weighted mid price, snapshot(depth) for every depth on asymmetric books (0..4 x 0..4 levels, empty and '
-                     'one-level sides), worst level re-priced then deleted',
+                     'one-level sides), worst level re-priced then deleted; WIDE updates (21..300 levels a side, beyond the insertion-sort regime of sort_unstable) with a price '
+                     'repeated at the front / middle / back and random wide updates over few prices: the last entry of a price decides',
                 bound={'quick': '~120k cases', 'thorough': '~300k cases'}),
     'C09': dict(what='the REAL EngineState (2 exchanges, 3 instruments, 5 assets, same names on both exchanges) through update_from_account / update_from_market: six sets of 2-5 '
                      'timestamped updates (distinct, tied, repeated values) delivered in every sequence with repetition up to a length bound, streamed or inside full account '
